@@ -340,17 +340,22 @@ func (t *tr) stmts(list []ast.Stmt, ind string) string {
 		if len(v.Results) == 1 {
 			return t.expr(v.Results[0])
 		}
+		if a, ok := t.atoms["return "+src0(v.Results)]; ok {
+			return a
+		}
 		var parts []string
 		for _, r := range v.Results {
 			parts = append(parts, t.expr(r))
 		}
-		if a, ok := t.atoms["return "+src0(v.Results)]; ok {
-			return a
-		}
 		return "(" + strings.Join(parts, ", ") + ")"
 	case *ast.IfStmt:
+		prefix := ""
 		if v.Init != nil {
-			fail("%s: if with init statement unsupported", t.who)
+			as, ok := v.Init.(*ast.AssignStmt)
+			if !ok || as.Tok != token.DEFINE || len(as.Lhs) != 1 || len(as.Rhs) != 1 {
+				fail("%s: if with init statement %q unsupported", t.who, src(v.Init))
+			}
+			prefix = "let " + src(as.Lhs[0]) + " := " + t.expr(as.Rhs[0]) + "\n" + ind
 		}
 		cond := t.expr(v.Cond)
 		thenPart := t.stmtsOrFall(v.Body.List, rest, ind+"  ")
@@ -363,7 +368,7 @@ func (t *tr) stmts(list []ast.Stmt, ind string) string {
 		case *ast.IfStmt:
 			elsePart = t.stmts(append([]ast.Stmt{e}, rest...), ind+"  ")
 		}
-		return "if " + cond + " then\n" + ind + "  " + thenPart + "\n" + ind + "else\n" + ind + "  " + elsePart
+		return prefix + "if " + cond + " then\n" + ind + "  " + thenPart + "\n" + ind + "else\n" + ind + "  " + elsePart
 	case *ast.SwitchStmt:
 		if v.Init != nil {
 			fail("%s: switch with init unsupported", t.who)
@@ -420,6 +425,71 @@ func (t *tr) stmtsOrFall(block, rest []ast.Stmt, ind string) string {
 	}
 	// strip comment-only / empty blocks: fall through
 	return t.stmts(append(append([]ast.Stmt{}, block...), rest...), ind)
+}
+
+// paramsTail translates a statement list whose returns are (nil, nil) = omit, (<name>, nil) = keep,
+// (nil, <error>) = refuse.
+func paramsTail(list []ast.Stmt, name string, c *consts, funcs map[string]string, who string) string {
+	atoms := map[string]string{}
+	for _, st := range list {
+		ast.Inspect(st, func(n ast.Node) bool {
+			r, ok := n.(*ast.ReturnStmt)
+			if !ok {
+				return true
+			}
+			if len(r.Results) != 2 {
+				fail("%s: return with %d results", who, len(r.Results))
+			}
+			a, b := src(r.Results[0]), src(r.Results[1])
+			key := "return " + src0(r.Results)
+			switch {
+			case a == "nil" && b == "nil":
+				atoms[key] = "ParamsDecision.leaveOut"
+			case a == name && b == "nil":
+				atoms[key] = "(ParamsDecision.keep " + name + ")"
+			case a == "nil" && strings.HasPrefix(b, "&Error{Code: InvalidRequest"):
+				atoms[key] = "ParamsDecision.refuse"
+			default:
+				fail("%s: unexpected return %q", who, key)
+			}
+			return true
+		})
+	}
+	fn := map[string]string{"firstByte": "firstByte"}
+	for k, v := range funcs {
+		fn[k] = v
+	}
+	t := &tr{atoms: atoms, c: c, funcs: fn, who: who}
+	return t.stmts(list, "  ")
+}
+
+// rewriteAssignNil replaces a block consisting of the single statement `<name> = nil` by
+// `return nil, nil` throughout an if / else-if chain.
+func rewriteAssignNil(list []ast.Stmt, name string) []ast.Stmt {
+	var out []ast.Stmt
+	for _, st := range list {
+		out = append(out, rewriteAssignNilStmt(st, name))
+	}
+	return out
+}
+
+func rewriteAssignNilStmt(st ast.Stmt, name string) ast.Stmt {
+	switch v := st.(type) {
+	case *ast.IfStmt:
+		c := *v
+		c.Body = &ast.BlockStmt{List: rewriteAssignNil(v.Body.List, name)}
+		if v.Else != nil {
+			c.Else = rewriteAssignNilStmt(v.Else, name)
+		}
+		return &c
+	case *ast.BlockStmt:
+		return &ast.BlockStmt{List: rewriteAssignNil(v.List, name)}
+	case *ast.AssignStmt:
+		if src(v) == name+" = nil" {
+			return &ast.ReturnStmt{Results: []ast.Expr{ast.NewIdent("nil"), ast.NewIdent("nil")}}
+		}
+	}
+	return st
 }
 
 func src0(es []ast.Expr) string {
@@ -822,6 +892,47 @@ func main() {
 	emit(jhttp, c, "", "parseConstant", "parseConstant", "(s : List UInt8) : Option ConstVal",
 		map[string]string{"return true, true": "(some ConstVal.ctrue)", "return false, true": "(some ConstVal.cfalse)",
 			"return nil, true": "(some ConstVal.cnull)", "return nil, false": "none"})
+	// outbound parameter policy: the statements of Client.marshalParams after json.Marshal, and the
+	// same decision inside Server.pushReq
+	{
+		fd, file := findFunc(root, "Client", "marshalParams")
+		if fd == nil {
+			fail("function Client.marshalParams not found")
+		}
+		at := -1
+		for i, st := range fd.Body.List {
+			if strings.HasPrefix(src(st), "pbits, err := json.Marshal(params)") {
+				at = i
+			}
+		}
+		if at < 0 || at+2 > len(fd.Body.List) || !strings.HasPrefix(src(fd.Body.List[at+1]), "if err != nil {\n\treturn nil, err") {
+			fail("%s:marshalParams: json.Marshal / error check not found", file)
+		}
+		tail := fd.Body.List[at+2:]
+		fmt.Fprintf(&fs, "/-- %s: `Client.marshalParams` after `json.Marshal` succeeded -/\ndef marshalParamsTail (pbits : List UInt8) (firstByte : List UInt8 → Int) : ParamsDecision :=\n  %s\n\n",
+			file, paramsTail(tail, "pbits", c, funcs, file+":marshalParams"))
+	}
+	{
+		fd, file := findFunc(root, "Server", "pushReq")
+		if fd == nil {
+			fail("function Server.pushReq not found")
+		}
+		var blk []ast.Stmt
+		for _, st := range fd.Body.List {
+			if is, ok := st.(*ast.IfStmt); ok && src(is.Cond) == "params != nil" {
+				blk = is.Body.List
+			}
+		}
+		if len(blk) < 4 || !strings.HasPrefix(src(blk[0]), "v, err := json.Marshal(params)") || !strings.HasPrefix(src(blk[1]), "if err != nil {\n\treturn nil, err") ||
+			src(blk[len(blk)-1]) != "bits = v" {
+			fail("%s:pushReq: params block has an unexpected shape", file)
+		}
+		// `v = nil` means omit; reaching `bits = v` with v untouched means keep
+		tail := rewriteAssignNil(blk[2:len(blk)-1], "v")
+		tail = append(tail, &ast.ReturnStmt{Results: []ast.Expr{ast.NewIdent("v"), ast.NewIdent("nil")}})
+		fmt.Fprintf(&fs, "/-- %s: `Server.pushReq`, the parameter block after `json.Marshal` succeeded -/\ndef pushParamsTail (v : List UInt8) (firstByte : List UInt8 → Int) : ParamsDecision :=\n  %s\n\n",
+			file, paramsTail(tail, "v", c, funcs, file+":pushReq"))
+	}
 	// conditions inside larger functions
 	emitCond := func(p *pkg, cst *consts, recv, name, lean, sig string, pick func(*ast.FuncDecl) ast.Expr, atoms map[string]string) {
 		fd, file := findFunc(p, recv, name)
